@@ -27,6 +27,8 @@ def default_profile(rng):
         "perfect": rng.random() < 0.5,  # perfect nests only (outside the MergeForLoops known finding)
         "allocs": fam in ("reuse", "both"),
         "rank_reducing": rng.random() < 0.4,
+        "ifs": rng.random() < 0.3,
+        "counter": rng.random() < 0.15,
     }
 
 
@@ -79,8 +81,24 @@ class LoopGen:
             out.append(self.loop(depth, scope, ivs, bufs))
             return out
         for _ in range(r.randint(1, 3)):
-            k = r.choices(["op", "for", "alloc", "subview"], [3, 2 if depth < p["max_depth"] else 0, 2 if p["allocs"] else 0, 1 if p["allocs"] else 0])[0]
-            if k == "op":
+            k = r.choices(["op", "for", "alloc", "subview", "if", "cnt"], [3, 2 if depth < p["max_depth"] else 0, 2 if p["allocs"] else 0, 1 if p["allocs"] else 0, (1 if p.get("ifs") and depth < p["max_depth"] and not p["perfect"] else 0), 2 if p.get("counter") else 0])[0]
+            if k == "if":
+                # a conditional region around ops and loops: a loop inside it is not directly nested in the outer loop
+                node = {"k": "if", "a": r.choice(ivs), "b": r.choice(["%c1", "%c2", "%c4"]), "then": self.body(depth + 1, scope, ivs, bufs), "else": []}
+                if r.random() < 0.5:
+                    self.tag += 1
+                    node["else"] = [{"k": "op", "tag": self.tag, "args": [r.choice(ivs)]}]
+                out.append(node)
+            elif k == "cnt":
+                # a one-element counter buffer (allocated in front of the loops): incremented through a view of it,
+                # read directly, the value read goes to a tagged op
+                if r.random() < 0.5:
+                    out.append({"k": "cnt_inc", "via": r.choice(["%cntv", "%cntv", "%cnt"])})
+                else:
+                    nm = self.fresh("q")
+                    self.tag += 1
+                    out.append({"k": "cnt_read", "name": nm, "tag": self.tag})
+            elif k == "op":
                 self.tag += 1
                 args = [self.idx_value(out, scope, ivs) for _ in range(r.randint(1, 2))]
                 out.append({"k": "op", "tag": self.tag, "args": args})
@@ -138,11 +156,16 @@ class LoopGen:
         body = [self.loop(0, scope, [], [])]
         if self.r.random() < 0.3:
             body.append(self.loop(0, scope, [], []))
-        return {"body": body}
+        return {"body": body, "counter": bool(self.p.get("counter"))}
+
+
+TC = 'memref<1xindex, "L1">'
+TCV = 'memref<1xindex, strided<[1], offset: 0>, "L1">'
 
 
 def emit(ast) -> str:
     L = []
+    cnt = [0]
 
     def e(ind, s):
         L.append("  " * ind + s)
@@ -172,6 +195,24 @@ def emit(ast) -> str:
                 e(ind, f'scf.for {s["iv"]} = {s["lb"]} to {s["ub"]} step {s["step"]} {{')
                 stmts(ind + 1, s["body"])
                 e(ind, "}")
+            elif k == "if":
+                cnt[0] += 1
+                e(ind, f'%cond{cnt[0]} = arith.cmpi slt, {s["a"]}, {s["b"]} : index')
+                e(ind, f"scf.if %cond{cnt[0]} {{")
+                stmts(ind + 1, s["then"])
+                if s["else"]:
+                    e(ind, "} else {")
+                    stmts(ind + 1, s["else"])
+                e(ind, "}")
+            elif k == "cnt_inc":
+                cnt[0] += 1
+                ty = TCV if s["via"] == "%cntv" else TC
+                e(ind, f'%old{cnt[0]} = memref.load {s["via"]}[%c0] : {ty}')
+                e(ind, f"%new{cnt[0]} = arith.addi %old{cnt[0]}, %c1 : index")
+                e(ind, f'memref.store %new{cnt[0]}, {s["via"]}[%c0] : {ty}')
+            elif k == "cnt_read":
+                e(ind, f'{s["name"]} = memref.load %cnt[%c0] : {TC}')
+                e(ind, f'"test.op"({s["name"]}) {{vtag = {s["tag"]} : i64}} : (index) -> ()')
             else:
                 raise ValueError(k)
 
@@ -179,6 +220,10 @@ def emit(ast) -> str:
     e(1, f"func.func @f(%arg0 : {TA}, %n0 : index, %n1 : index, %l0 : index, %t0 : index) {{")
     for c in CONSTS:
         e(2, f"%c{c} = arith.constant {c} : index")
+    if ast.get("counter"):
+        e(2, f"%cnt = memref.alloc() {{vsite = 900 : i64}} : {TC}")
+        e(2, f"%cntv = memref.subview %cnt[0][1][1] : {TC} to {TCV}")
+        e(2, f"memref.store %c7, %cnt[%c0] : {TC}")
     stmts(2, ast["body"])
     e(2, "func.return")
     e(1, "}")
@@ -205,6 +250,11 @@ def shrink_body(body):
                     yield body[:i] + [dict(s, ub=smaller)] + body[i + 1 :]
         if s["k"] == "op" and len(s["args"]) > 1:
             yield body[:i] + [dict(s, args=s["args"][:1])] + body[i + 1 :]
+        if s["k"] == "if":
+            yield body[:i] + s["then"] + body[i + 1 :]
+            for key in ("then", "else"):
+                for nb in shrink_body(s[key]):
+                    yield body[:i] + [dict(s, **{key: nb})] + body[i + 1 :]
 
 
 def has_imperfect_const_nest(body):
@@ -215,10 +265,12 @@ def has_imperfect_const_nest(body):
         return s["lb"] == "%c0" and s["ub"].startswith("%c") and s["step"].startswith("%c")
 
     for s in body:
+        if s["k"] == "if" and (has_imperfect_const_nest(s["then"]) or has_imperfect_const_nest(s["else"])):
+            return True
         if s["k"] != "for":
             continue
         inner = [c for c in s["body"] if c["k"] == "for"]
-        others = [c for c in s["body"] if c["k"] in ("op", "alloc")]
+        others = [c for c in s["body"] if c["k"] in ("op", "alloc", "cnt_inc", "cnt_read", "if")]
         if const0(s) and any(const0(c) for c in inner) and (others or len(inner) > 1):
             return True
         if has_imperfect_const_nest(s["body"]):
@@ -247,5 +299,7 @@ def has_min_sized_subview_dim_alloc(body, mins=frozenset(), views=None, dims=Non
         elif k == "alloc" and any(x in dims for x in s["sizes"]):
             return True
         elif k == "for" and has_min_sized_subview_dim_alloc(s["body"], mins, views, dims):
+            return True
+        elif k == "if" and (has_min_sized_subview_dim_alloc(s["then"], mins, views, dims) or has_min_sized_subview_dim_alloc(s["else"], mins, views, dims)):
             return True
     return False
